@@ -11,23 +11,23 @@
 typedef unsigned long ul;
 enum { F_ADDASSIGN, F_PREINC, F_POSTINC, F_SUBASSIGN, F_FETCHADD, F_FETCHSUB, F_MULODD, F_XOR, F_ORAND, F_EXCHANGE, F_CASLOOP, NFAM };
 static const char *famname[] = {"op=add", "++pre", "post++", "op=sub", "fetch_add", "fetch_sub", "op=mul-odd", "op=xor", "fetch_or/and", "exchange", "cas-loop"};
-static const char *wname[] = {"w1", "w2", "w4", "w8", "w1s", "w8s"};
-static const int wbits[] = {8, 16, 32, 64, 8, 64};
+static const char *wname[] = {"w1", "w2", "w4", "w8", "w1s", "w8s", "w4member", "w8pointer"};
+static const int wbits[] = {8, 16, 32, 64, 8, 64, 32, 64};
 static const char *stname[] = {"static", "automatic", "heap"};
 
 #define DECL(S) \
   void w_addassign_##S(void *, long, ul *); void w_preinc_##S(void *, long, ul *); void w_postinc_##S(void *, long, ul *); void w_subassign_##S(void *, long, ul *); \
   void w_fetchadd_##S(void *, long, ul *); void w_fetchsub_##S(void *, long, ul *); void w_mulodd_##S(void *, long, ul *); void w_xor_##S(void *, long, ul *, ul); \
   void w_orand_##S(void *, long, ul *, ul); void w_exchange_##S(void *, long, ul *, ul); long w_casloop_##S(void *, long, ul *, long);
-DECL(u8) DECL(u16) DECL(u32) DECL(u64) DECL(i8) DECL(i64)
+DECL(u8) DECL(u16) DECL(u32) DECL(u64) DECL(i8) DECL(i64) DECL(m32) DECL(p64)
 void *static_object(int which);
 void with_automatic(int which, void (*run)(void *obj, void *ctx), void *ctx);
 
 typedef void (*fn3)(void *, long, ul *);
 typedef void (*fn4)(void *, long, ul *, ul);
 typedef long (*fncas)(void *, long, ul *, long);
-#define TAB(name) { (void *)w_##name##_u8, (void *)w_##name##_u16, (void *)w_##name##_u32, (void *)w_##name##_u64, (void *)w_##name##_i8, (void *)w_##name##_i64 }
-static void *table[NFAM][6] = { TAB(addassign), TAB(preinc), TAB(postinc), TAB(subassign), TAB(fetchadd), TAB(fetchsub), TAB(mulodd), TAB(xor), TAB(orand), TAB(exchange), TAB(casloop) };
+#define TAB(name) { (void *)w_##name##_u8, (void *)w_##name##_u16, (void *)w_##name##_u32, (void *)w_##name##_u64, (void *)w_##name##_i8, (void *)w_##name##_i64, (void *)w_##name##_m32, (void *)w_##name##_p64 }
+static void *table[NFAM][8] = { TAB(addassign), TAB(preinc), TAB(postinc), TAB(subassign), TAB(fetchadd), TAB(fetchsub), TAB(mulodd), TAB(xor), TAB(orand), TAB(exchange), TAB(casloop) };
 
 static int ncpu_avail, cpus[256];
 static pthread_barrier_t bar;
@@ -231,7 +231,7 @@ int main(int argc, char **argv) {
   setvbuf(stdout, 0, _IOLBF, 0);
   int idx = 0;
   for (int fam = 0; fam < NFAM; fam++)
-    for (int w = 0; w < 6; w++) {
+    for (int w = 0; w < 8; w++) {
       int st = (idx++ + seed) % 3;
       int nst = small ? 1 : 3;
       for (int s = 0; s < nst; s++) {
@@ -243,7 +243,7 @@ int main(int argc, char **argv) {
         if (fam == F_CASLOOP && p.n > 200000) p.n = 200000;
         if (p.st == 0) run_phase_on(static_object(w), &p);
         else if (p.st == 1) with_automatic(w, run_phase_on, &p);
-        else { void *h = aligned_alloc(64, 64); run_phase_on(h, &p); free(h); }
+        else { char *h = aligned_alloc(64, 128); memset(h, 0, 128); run_phase_on(h + 64, &p); free(h); }
         if (small) break;
       }
     }
